@@ -1,17 +1,24 @@
+// flavors harness: C29 (API flavors interchangeable), C31 (typed nil = empty, read-only),
+// C46 (legacy / struct-tag-only messages behave like generated ones).
 package main
 
 import (
-	"fmt"
-
 	vh "google.golang.org/protobuf/internal/zz_verif_vh"
-	"google.golang.org/protobuf/reflect/protoreflect"
-	"google.golang.org/protobuf/reflect/protoregistry"
+	"google.golang.org/protobuf/proto"
+	"google.golang.org/protobuf/runtime/protoiface"
 )
 
 func main() { vh.Main("flavors", run) }
 
 func run(c *vh.Ctx) {
-	n := 0
-	protoregistry.GlobalTypes.RangeMessages(func(mt protoreflect.MessageType) bool { n++; return true })
-	fmt.Println("types", n)
+	switch c.Prop {
+	case "C31":
+		runNil(c)
+	default:
+		panic("flavors harness: unknown property " + c.Prop)
+	}
+}
+
+func protoifaceMarshalInput(m proto.Message) protoiface.MarshalInput {
+	return protoiface.MarshalInput{Message: m.ProtoReflect()}
 }
